@@ -20,7 +20,7 @@ import re
 from typing import Any, Dict, List, Optional, Tuple
 
 from sa import sqlconc, sqlexpr, sqlx
-from sa.core import AnalysisError, Finding, Program, Report, program, src
+from sa.core import AnalysisError, Finding, Program, Report, dotted, program, src
 
 TH = "vtlengine.DataTypes.TimeHandling"
 FLAG_UNITS = {"annual": 12, "semester": 6, "quarter": 3, "weekly": 7}
@@ -274,6 +274,9 @@ def run(rep: Report, tier: str) -> None:
     rep.rule("R08.6", "time macros and generated time SQL: no `/` between integer-typed operands (DuckDB `/` is float division)")
     ndiv = intdiv.rule(rep, P, "R08.6", only_macros=None, skeleton_prefixes=("vtlengine.duckdb_transpiler",))
     rep.floor("R08.6 divisions examined", ndiv, 6)
+    # ---- R08.12: the Python-side period patterns accept every period of the calendar ----
+    rep.rule("R08.12", "the patterns check_time_period consults accept every period number 1..limit (PeriodDuration.periods) of every indicator, compact and hyphenated")
+    python_period_patterns_cover_limits(P, rep, "R08.12")
     rep.assumptions = ["DuckDB integer semantics: `//` truncates toward zero, `%` keeps the sign of the dividend (checked once against the "
                        "installed DuckDB while writing the rule; not executed by the check)",
                        "calendar facts: ISO years have 52 or 53 weeks, years 365 or 366 days"]
@@ -559,3 +562,47 @@ def sql_period_limits(macros: Dict[str, Any]):
         except sqlexpr.ParseError as e:
             raise AnalysisError(f"vtl_period_limit not evaluable: {e}")
     return lim, body, sql_limits
+
+
+def python_period_patterns_cover_limits(P: Program, rep: Report, rule: str) -> None:
+    """The regular expressions check_time_period consults (module-level patterns of DataTypes/_time_checking, folded from their constant
+    fragments) accept every period number 1..limit of every indicator - limits from PeriodDuration.periods - in the compact and the
+    hyphenated spelling, padded or not.  A scalar Time_Period result (e.g. 2020W53) is validated by these patterns when it is fetched."""
+    import re as _re
+    from sa.core import FuncInfo as _FI
+    from sa.e6 import Interp as _I, Unmodelled as _U
+    from sa.checks.c19 import period_limits as _pl
+    m = P.module("vtlengine.DataTypes._time_checking")
+    fc = P.func("vtlengine.DataTypes._time_checking._check_time_period_cached")
+    used = {x.func.value.id for x in ast.walk(fc.node) if isinstance(x, ast.Call) and isinstance(x.func, ast.Attribute) and x.func.attr in ("fullmatch", "match", "search")
+            and isinstance(x.func.value, ast.Name) and x.func.value.id in m.assigns}
+    fake = _FI("vtlengine.DataTypes._time_checking.<module>", m, ast.parse("def _m(): pass").body[0])
+    pats: Dict[str, Any] = {}
+    for nm in sorted(used):
+        v = m.assigns[nm]
+        if not (isinstance(v, ast.Call) and (dotted(v.func) or "").endswith("compile") and v.args):
+            continue
+        try:
+            txt = _I(P).eval(v.args[0], {}, fake)
+        except _U as e:
+            raise AnalysisError(f"{rule}: pattern {nm} is not a constant expression: {e}")
+        pats[nm] = _re.compile(str(txt))
+    if len(pats) < 2:
+        raise AnalysisError(f"{rule}: the period patterns consulted by _check_time_period_cached not found (anchor changed)")
+    limits = _pl(P)
+    n = 0
+    bad: Dict[str, str] = {}
+    for ind in "SQMWD":
+        L = limits[ind]
+        for k in range(1, L + 1):
+            width = len(str(L))
+            for sp in {f"2020{ind}{k}", f"2020{ind}{k:0{width}d}", f"2020-{ind}{k}", f"2020-{ind}{k:0{width}d}"}:
+                n += 1
+                if not any(p_.fullmatch(sp) for p_ in pats.values()):
+                    bad.setdefault(f"{ind}/{'hyphenated' if '-' in sp else 'compact'}", sp)
+        rep.instance(rule, f"python-patterns/{ind}", nontrivial=True, sample={"indicator": ind, "limit": L, "patterns": sorted(pats)})
+    for k_, sp in bad.items():
+        rep.add(Finding(rule, f"{rule}/python-patterns/{k_}", m.rel, getattr(m.assigns[sorted(pats)[0]], "lineno", 1), "vtlengine.DataTypes._time_checking",
+                        f"the Time_Period value {sp!r} (period number within 1..{limits[k_[0]]} of PeriodDuration.periods) is accepted by none of the patterns {sorted(pats)} that check_time_period "
+                        f"consults: a scalar result or scalar input holding that period is rejected although the SQL side and the dataset loaders accept it"))
+    rep.floor(f"{rule} spellings tried", n, 1000)
